@@ -117,8 +117,20 @@ def dump(sql, dialect="ansi", metadata=None, silent=False, verbose=False, want_g
         import json as _json
         for k in ("cyto_table", "cyto_column"):
             if k in out:
-                ents = [dict(e, data=dict(e["data"], id="e") if "source" in e["data"] else e["data"]) for e in out[k]]
-                out[k] = sorted(ents, key=lambda e: _json.dumps(e, sort_keys=True))
+                def _noid(e):
+                    return _json.dumps(dict(e, data={a: b for a, b in e["data"].items() if a != "id"}) if "source" in e["data"] else e,
+                                       sort_keys=True)
+                ents = sorted(out[k], key=_noid)
+                eids = [e["data"]["id"] for e in ents if "source" in e["data"]]
+                if sorted(eids) == sorted("e%d" % i for i in range(len(eids))):
+                    # edge ids are positions in the name-sorted edge list: re-issue them in canonical order.  Anything else
+                    # (a duplicate, a foreign id) is left exactly as the code produced it
+                    i = 0
+                    for j, e in enumerate(ents):
+                        if "source" in e["data"]:
+                            ents[j] = dict(e, data=dict(e["data"], id="e%d" % i))
+                            i += 1
+                out[k] = ents
         for k in ("col_edges", "table_edges", "table_nodes"):
             if k in out:
                 out[k] = sorted(out[k])
